@@ -400,7 +400,7 @@ func (in *interp) body(a *act, n *Node, d int) Completion {
 func (in *interp) newIter(a *act, n *Node) iterator {
 	in.seq++
 	if n.Iter.Gen > 0 {
-		in.emit(Ev("G", a.id, n.Iter.Gen, in.seq))
+		in.emit(Ev("G", a.id, n.ID, n.Iter.Gen, in.seq))
 		g := &genObj{in: in, def: in.p.Gens[n.Iter.Gen-1], inst: in.seq}
 		in.gens = append(in.gens, g)
 		return g
@@ -875,7 +875,7 @@ func (in *interp) stmt(a *act, n *Node, d int, ls []string) Completion {
 
 	case GenNew:
 		in.seq++
-		in.emit(Ev("G", a.id, n.Gen, in.seq))
+		in.emit(Ev("G", a.id, id, n.Gen, in.seq))
 		g := &genObj{in: in, def: in.p.Gens[n.Gen-1], inst: in.seq}
 		in.gens = append(in.gens, g)
 		a.g[n.Var] = g
